@@ -204,6 +204,16 @@ fn run_once(seed: u64, index: u64, rep: &mut Report, canary: u8, prior: Option<&
             w.violation("C15", "contents-differ-from-vec-model", format!("after [{desc}]: ReadBuf has len {}, model len {} (or bytes differ)", buf.len(), model.len()));
             break;
         }
+        if buf.is_empty() != model.is_empty() {
+            w.violation("C15", "is-empty-differs-from-vec-model", format!("after [{desc}]: is_empty() is {} with {} bytes in the buffer", buf.is_empty(), model.len()));
+        }
+        {
+            // The view the I/O operations take of the buffer (what a re-read would be offered).
+            use a10::io::BufMut as _;
+            if buf.spare_capacity() as usize != cap - model.len() || buf.has_spare_capacity() != (model.len() < cap) {
+                w.violation("C15", "spare-capacity-view", format!("after [{desc}]: BufMut::spare_capacity() {} / has_spare_capacity() {} for len {} of {cap}", buf.spare_capacity(), buf.has_spare_capacity(), model.len()));
+            }
+        }
         if buf.capacity() != cap {
             w.violation("C15", "capacity-changed", format!("capacity() is {} for a pool of {cap}-byte buffers", buf.capacity()));
         }
